@@ -10,11 +10,11 @@ D=/verif/seeded/$PROP-$NAME
 mkdir -p $D
 git -C /repo worktree add -q $WT HEAD || exit 2
 cp $OUT/$DEMO $WT/$DEST/
-(cd $WT && go test -vet=off -count=1 "$@" > $D/demo_without_change.log 2>&1; echo "exit=$?" >> $D/demo_without_change.log)
+(cd $WT/${RUNDIR:-.} && go test -vet=off -count=1 "$@" > $D/demo_without_change.log 2>&1; echo "exit=$?" >> $D/demo_without_change.log)
 git -C $WT apply $OUT/patch.diff || { echo "patch does not apply"; git -C /repo worktree remove --force $WT; exit 2; }
-(cd $WT && go build ./... && go test -vet=off -count=1 "$@" > $D/demo_with_change.log 2>&1; echo "exit=$?" >> $D/demo_with_change.log)
+(cd $WT && go build ./... && cd $WT/${RUNDIR:-.} && go test -vet=off -count=1 "$@" > $D/demo_with_change.log 2>&1; echo "exit=$?" >> $D/demo_with_change.log)
 rm -f $WT/$DEST/$DEMO
-(cd /verif && VERIF_REPO=$WT timeout 3000 ./check $PROP quick > $D/check_quick.log 2>&1; echo "exit=$?" >> $D/check_quick.log)
+(cd /verif && VERIF_REPO=$WT timeout 3000 ./check ${CHECKS:-$PROP} ${TIER:-quick} > $D/check_quick.log 2>&1; echo "exit=$?" >> $D/check_quick.log)
 git -C /repo worktree remove --force $WT
 cp $OUT/patch.diff $D/patch.diff; cp $OUT/$DEMO $D/; cp $OUT/meta.json $D/meta.orig.json 2>/dev/null
 echo "without: $(tail -1 $D/demo_without_change.log)  with: $(tail -1 $D/demo_with_change.log)  check: $(tail -1 $D/check_quick.log)"
